@@ -595,6 +595,20 @@ fn main() {
                     let printed = o.buffer.lines().find_map(|l| l.strip_prefix("presolve: removed ").and_then(|r| r.split_whitespace().next()).and_then(|x| x.parse::<usize>().ok()));
                     sink.record(json!({"direct": {"prop": "C20", "ok": printed == Some(rem) && rem == dropped, "what": "presolve reduction count in the header", "input": {"label": p.label, "printed": printed, "removed": rem, "expected": dropped}}}));
                 }
+                // C07: every step-length computation is what the model computes from its recorded
+                // inputs, and keeps tau, kappa positive
+                {
+                    let mut nsl = 0;
+                    for e in o.events.iter() {
+                        if let Event::StepLen { tau, kappa, dtau, dkappa, alpha_cap, alpha_z, alpha_s, alpha_out, combined, max_step_fraction } = e {
+                            nsl += 1;
+                            if nsl > 40 { break; }
+                            sink.case("steplen", json!({"label": p.label, "settings": cfg.json(), "problem": p.to_json(), "call": nsl, "tau": tau, "kappa": kappa, "dtau": dtau, "dkappa": dkappa}),
+                                format!("(c_steplen {} {} {} {} {} {} {} {} {} {})", cfl(*tau), cfl(*kappa), cfl(*dtau), cfl(*dkappa), cfl(*alpha_cap), cfl(*alpha_z), cfl(*alpha_s), cfl(*alpha_out), cfl(*max_step_fraction), cb(*combined)),
+                                &["C07"]);
+                        }
+                    }
+                }
                 // C07: interior snapshots (exact for zero / nonnegative / second-order cones)
                 let mut nsnap = 0;
                 for e in o.events.iter() {
